@@ -89,6 +89,28 @@ type sim struct {
 	big      []byte
 }
 
+// feedStats counts, per kind of datagram fed to handleSessionMessage, how often it was accepted / rejected
+// (printed as driver_info so the evidence shows that the rejecting branches are reached).
+var feedStats = map[string][3]int{}
+
+func labelKind(l string) string {
+	if i := strings.IndexAny(l, "(:+"); i > 0 {
+		l = l[:i]
+	} else if len(l) > 0 && (l[0] == 'P' || l[0] == 'F' || l[0] == 'O') {
+		return "pristine"
+	}
+	// strip a trailing -<number>
+	for i := len(l) - 1; i > 0; i-- {
+		if l[i] == '-' {
+			return l[:i]
+		}
+		if l[i] < '0' || l[i] > '9' {
+			break
+		}
+	}
+	return l
+}
+
 func (s *sim) fail(sig, what string) {
 	if !strings.HasPrefix(sig, s.prop+":") {
 		return
@@ -322,6 +344,9 @@ func (s *sim) feed(pkt []byte, src uint64, label string) {
 	s.ops = append(s.ops, hv.App("I", hv.N(src), hx(pkt), hv.Ni(ki), optHex(or, ok)))
 	s.ob(code, 0, nil, nil, after)
 	s.desc = append(s.desc, fmt.Sprintf("in(from a%d, %s, %d bytes)->%d", src, label, len(pkt), code))
+	st := feedStats[labelKind(label)]
+	st[code]++
+	feedStats[labelKind(label)] = st
 
 	// ---- specification oracle ----
 	if panicked {
